@@ -216,6 +216,7 @@ def numeral_states():
     cnts = [str(n) for n in range(2, 121)] + ["%d.%d" % (a, b) for a in range(0, 10) for b in range(1, 10)] + ["12.25", "0.125"]
     # decimal counts next to whole numbers and next to zero: read as written, never rounded
     cnts += ["0.9995", "0.999", "1.0001", "1.001", "2.0004", "3.9999", "0.0004", "0.001", "10.0005"]
+    cnts += ["0.00000025", "0.9999996", "1.0000004", "3.00000075"]  # seven and more decimals
     for el in ("H", "Co"):
         for k in cnts:
             yield ((("el", el, k),), None, None, None, None, None)
